@@ -527,6 +527,13 @@ def directed(cfg):
     out.append(('link-same-name-removed', ops))
     ops2 = [dict(o) for o in ops[:4]] + [{'op': 'rmlink', 'ns': 'i', 'path': '/FOO.;1'}] + [adddir(root, 'M%d' % i, 'm%d' % i) for i in range(4)]
     out.append(('link-same-name-original-removed', ops2))
+    if cfg.get('rr'):
+        # a symbolic link whose target needs a continuation area is removed again: the block must be released
+        sym = {'op': 'addsym', 'iso': '/SYMC.;1', 'rr': 'symc', 'target': '/'.join(['abcdefgh'] * 40)}
+        if cfg.get('joliet'):
+            sym['joliet'] = '/symc'
+        out.append(('rr-symlink-with-continuation-removed', [addfp(root, 'KEEP.;1', 'keep', n=5), sym, {'op': 'rmfile', 'ns': 'i', 'path': '/SYMC.;1'}]))
+        out.append(('rr-symlink-with-continuation-removed-link', [addfp(root, 'KEEP.;1', 'keep', n=5), dict(sym), {'op': 'rmlink', 'ns': 'i', 'path': '/SYMC.;1'}]))
     if cfg.get('rr') and cfg['ilevel'] < 4:
         # deep directories: the 8th level is relocated to RR_MOVED (placeholder with CL in place, real record with RE)
         chain, ip, op_ = [], '', ''
@@ -538,6 +545,20 @@ def directed(cfg):
         out.append(('reloc-two-long-names', chain + [deep('DEEPA', 'a' * 150), deep('DEEPB', 'b' * 150),
                                                      dict({'op': 'addfp', 'cid': 2001, 'n': 9, 'iso': ip + '/DEEPA/X.;1', 'rr': 'x'},
                                                           **({'joliet': op_ + '/deepa/x'} if cfg.get('joliet') else {}))]))
+        # two relocated directories with the same Rock Ridge name (different identifiers) in different parents, each with
+        # its own file: listing a parent must give ITS directory, also after a reopen
+        chain2, ip2, op2 = [], '', ''
+        for i in range(7):
+            chain2.append(adddir((ip2, op2), 'M%d' % i, 'm%d' % i))
+            ip2, op2 = ip2 + '/M%d' % i, op2 + '/m%d' % i
+        jo = lambda pth: ({'joliet': pth} if cfg.get('joliet') else {})   # noqa
+        same = chain + chain2 + [
+            dict({'op': 'adddir', 'iso': ip + '/DEEPA', 'rr': 'same'}, **jo(op_ + '/deepa')),
+            dict({'op': 'adddir', 'iso': ip2 + '/DEEPB', 'rr': 'same'}, **jo(op2 + '/deepb')),
+            dict({'op': 'addfp', 'cid': 2003, 'n': 11, 'iso': ip + '/DEEPA/FA.;1', 'rr': 'file-a'}, **jo(op_ + '/deepa/fa')),
+            dict({'op': 'addfp', 'cid': 2004, 'n': 12, 'iso': ip2 + '/DEEPB/FB.;1', 'rr': 'file-b'}, **jo(op2 + '/deepb/fb'))]
+        out.append(('reloc-same-rr-name', same))
+        out.append(('reloc-same-rr-name-reopened', same + [{'op': 'reopen'}, dict({'op': 'addfp', 'cid': 2005, 'n': 3, 'iso': '/Z.;1', 'rr': 'z'}, **jo('/z'))]))
         # a relocated directory survives a write + open; the image then grows (the placeholder must not turn into a file)
         out.append(('reloc-reopen-grow', chain + [deep('DEEP', 'deep'), deep('DEER', 'deer'), {'op': 'reopen'},
                                                    dict({'op': 'addfp', 'cid': 2002, 'n': 5000, 'iso': '/GROW.;1', 'rr': 'grow'},
@@ -561,6 +582,10 @@ def directed(cfg):
     many = [adddir(root, 'PPPPP%03d' % i, 'ppppp%03d' % i) for i in range(258)]
     out.append(('path-table-just-above-two-sectors', many + [rm('rmdir', root, 'PPPPP%03d' % i, 'ppppp%03d' % i) for i in (257, 100)]))
     out.append(('path-table-back-to-two-sectors', many + [rm('rmdir', root, 'PPPPP%03d' % i, 'ppppp%03d' % i) for i in (257, 100, 256, 3)]))
+    # the same with copies of the PVD: the path tables exist once, whatever the number of descriptors that describe them
+    out.append(('path-table-above-two-sectors-pvd-copy-first', [{'op': 'duppvd'}] + many + [rm('rmdir', root, 'PPPPP%03d' % i, 'ppppp%03d' % i) for i in (257, 100)]))
+    out.append(('path-table-back-to-two-sectors-pvd-copy-later', many + [{'op': 'duppvd'}] +
+                [rm('rmdir', root, 'PPPPP%03d' % i, 'ppppp%03d' % i) for i in (257, 100, 256, 3)]))
     # Joliet directory of two sectors next to an ISO9660 directory of one (long UCS-2 names, short identifiers)
     out.append(('joliet-two-sectors', [addfp(root, 'F%02d.;1' % i, 'file-%02d-with-a-long-joliet-name-xxxxxxxxxx' % i, n=60 + i, rr='f%02d' % i) for i in range(30)]))
     if cfg.get('udf'):
@@ -570,6 +595,14 @@ def directed(cfg):
         f2.pop('joliet', None)
         out.append(('udf-link-name-reused', [f1, {'op': 'addlink', 'ons': 'u', 'old': '/foo', 'nns': 'u', 'new': '/bar'},
                                              {'op': 'query', 'ns': 'u', 'path': '/bar'}, {'op': 'rmlink', 'ns': 'u', 'path': '/bar'}, f2]))
+    if cfg.get('udf'):
+        # a content with two UDF names on an image that is opened again: one name is unlinked, the other keeps the File
+        # Entry; then the second goes too
+        h1 = addfp(root, 'TWO.;1', 'two', n=2500)
+        lk = {'op': 'addlink', 'ons': 'u', 'old': '/two', 'nns': 'u', 'new': '/two-again'}
+        out.append(('udf-two-names-reopen-unlink-one', [h1, lk, addfp(root, 'ZZZ.;1', 'zzz', n=9), {'op': 'reopen'}, {'op': 'rmlink', 'ns': 'u', 'path': '/two-again'}]))
+        out.append(('udf-two-names-reopen-unlink-both', [dict(h1), dict(lk), addfp(root, 'ZZZ.;1', 'zzz', n=9), {'op': 'reopen'},
+                                                         {'op': 'rmlink', 'ns': 'u', 'path': '/two-again'}, {'op': 'rmlink', 'ns': 'u', 'path': '/two'}]))
     if cfg.get('joliet'):
         g1 = addfp(root, 'FOO.;1', 'foo', n=3808)
         g2 = addfp(root, 'BAR2.;1', 'bar', n=3001)
